@@ -29,7 +29,7 @@ MANIFEST = {
              "attacker-controlled text in the receive-path functions, enumerated from the source by ast, is a row of the table of "
              "sites the model accounts for), parser totality lemmas (IndexError and KeyError unreachable), and one decided "
              "witness datagram per repair showing that the unrepaired variant raises.  Tables (gate prefixes, default "
-             "max-age, cache-control regex, bad-location needles, MX cap, jitter bounds, caught exception classes) are "
+             "max-age, cache-control regex, the location test handed to is_usable_location, MX cap, jitter bounds, caught exception classes) are "
              "regenerated from the source on every run.  The model is tied to the code by differential runs through the real "
              "SsdpProtocol.datagram_received of all four endpoints, with a malformed stream generated per raising primitive "
              "and call site; the Lean judge is evaluated on the implementation's observations."),
